@@ -518,8 +518,10 @@ update_from_seq(PyObject *map, PyObject *seq)
      * returns true for a PeristentMapping or PersistentDict, and we
      * want to use items() in those cases too.
      */
-    if (!PySequence_Check(seq) || /* or it "looks like a dict" */
-        PyObject_HasAttrString(seq, "items"))
+    /* Anything else (a generator of pairs, say) is simply iterated over,
+     * as the Python implementation and dict.update() do.
+     */
+    if (PyObject_HasAttrString(seq, "items"))
     {
         PyObject *items;
         items = PyObject_GetAttrString(seq, "items");
@@ -535,7 +537,10 @@ update_from_seq(PyObject *map, PyObject *seq)
 
     iter = PyObject_GetIter(seq);
     if (iter == NULL)
-        goto err;
+    {
+        Py_DECREF(seq);
+        return -1;
+    }
     while (1)
     {
         o = PyIter_Next(iter);
